@@ -1473,6 +1473,10 @@ class CanUnprotect(BaseSecurityContext):
             raise DecodeError("Protected data uses reserved fields")
 
         pivsz = firstbyte & COMPRESSION_BITS_N
+        if pivsz > 5:
+            # n = 6 and 7 are reserved (RFC 8613 Section 6.1); a partial IV
+            # that long would not fit the nonce construction either
+            raise DecodeError("Partial IV length uses a reserved value")
         if pivsz:
             if len(tail) < pivsz:
                 raise DecodeError("Partial IV announced but not present")
